@@ -63,10 +63,16 @@ def check_c15(tier, seed):
             cov["transitions"] += r["generated"]
         # real concurrent executions judged by IdmLin
         nhist = 0
-        for nproc, iters in ([(2, 30000), (3, 30000)] if tier == "quick" else [(2, 300000), (3, 300000), (4, 100000)]):
+        # (nproc 0 = every pair of calls from three set-up states under the deterministic scheduler: all schedules at
+        # mutex-acquisition granularity with at most 2 / 3 preemptions)
+        for nproc, iters in ([(0, 200), (2, 30000), (3, 30000)] if tier == "quick" else [(0, 2000), (2, 300000), (3, 300000), (4, 100000)]):
             hf = sc.path("idm-hist-%d.ndjson" % nproc)
-            r = subprocess.run([drive, "idmconc", "-out", hf, "-iters", str(iters), "-nproc", str(nproc), "-seed", str(seed)],
-                               capture_output=True, text=True, timeout=1800)
+            if nproc == 0:
+                r = subprocess.run([drive, "idmsched", "-out", hf, "-bound", "2" if tier == "quick" else "3", "-maxruns", str(iters)],
+                                   capture_output=True, text=True, timeout=1800)
+            else:
+                r = subprocess.run([drive, "idmconc", "-out", hf, "-iters", str(iters), "-nproc", str(nproc), "-seed", str(seed)],
+                                   capture_output=True, text=True, timeout=1800)
             if r.returncode != 0:
                 raise Infra("idmconc failed: " + r.stderr[-2000:])
             wd = sc.path("tlc-idmlin-%d" % nproc)
@@ -83,7 +89,7 @@ def check_c15(tier, seed):
                 viol.append(("concurrent", hs[i]))
             if not cov["samples"]:
                 cov["samples"].append({"concurrent_history": list(hs.values())[len(hs) // 2]})
-            cov["tlc_runs"].append({"judge": "IdmLin", "goroutines": nproc, "executions": iters, "distinct_histories": int(m2.group(1))})
+            cov["tlc_runs"].append({"judge": "IdmLin", "goroutines": nproc or "2 (deterministic scheduler, all call pairs)", "executions": iters, "distinct_histories": int(m2.group(1))})
         cov["concurrent_histories_judged"] = nhist
         with open(edges) as f:
             for i, line in enumerate(f):
@@ -101,7 +107,7 @@ def check_c15(tier, seed):
         cov["exhaustive"] = True
         vlib.write_evidence("C15", tier, seed, "model_checking", cov, time.time() - t0, violations=len(viol),
                             assumptions=["pool of names {root,g1,g2} x {root,u1,u2}; at most %d ids issued per kind" % maxissue,
-                                         "concurrent executions are free running (the deterministic scheduler of C06 adds schedule enumeration)"])
+                                         "concurrent executions: every pair of calls under the deterministic scheduler (lock-acquisition granularity, preemption bound) plus free-running runs with 2-4 goroutines"])
         return 1 if viol else 0
     finally:
         sc.cleanup()
